@@ -181,6 +181,76 @@ def handle_callers(prog, rep, tag):
                 rep.ob(P, "inner.get<-%s%s" % (b.root_short, tag), ok, "SubDeviceGroup.inner's UnsafeCell opened in %s" % b.root_short, loc=c.span, how="inventory")
 
 
+def pdi_lockers(prog):
+    """Bodies that acquire the group's image lock directly: {path: (body, [acquire calls])}."""
+    out = {}
+    for b in prog.bodies:
+        if b.crate != "ethercrab":
+            continue
+        acq = [c for c in b.calls() if (c.decl_s or "").split("::")[-1] in ("write", "read", "upgradable_read", "try_write", "try_read") and "RwLock" in (c.decl_s or "") and any(r[0] == "field" and r[-1] == "pdi" for r in Prov(b).of_operand(c.args[0]))]
+        if acq:
+            out[b.path] = (b, acq)
+    return out
+
+
+def reentrancy(prog, rep, tag, P="C20.lock"):
+    """The image lock is not re-entrant (lock_api::RwLock over a raw spin/std lock): a function that holds a
+    guard on self.pdi must not call - directly or through helpers - a function that acquires self.pdi again;
+    that call never returns."""
+    lockers = pdi_lockers(prog)
+    # functions from which a locker is reachable (callee closure), by root
+    roots = {b.root for b, _ in lockers.values()}
+    reach = {}
+    for b in prog.bodies:
+        if b.crate != "ethercrab":
+            continue
+        for c in b.calls():
+            t = prog.by_path.get(c.res) or prog.by_path.get(c.decl)
+            if t is not None:
+                reach.setdefault(b.root, set()).add(t.root)
+    may_lock = set(roots)
+    changed = True
+    while changed:
+        changed = False
+        for r, outs in reach.items():
+            if r not in may_lock and outs & may_lock:
+                may_lock.add(r)
+                changed = True
+    n = 0
+    for path, (b, acq) in sorted(lockers.items()):
+        for a in acq:
+            if a.dest["p"]:
+                continue
+            gl = a.dest["l"]
+            # blocks in which the guard may still be held: forward from the acquisition, stopping after its drop
+            held = set()
+            todo = [a.target] if a.target is not None else []
+            while todo:
+                x = todo.pop()
+                if x in held:
+                    continue
+                held.add(x)
+                t = b.term(x)
+                if t["k"] == "drop" and not t["place"]["p"] and t["place"]["l"] == gl:
+                    continue
+                # a move of the guard into a returned/owned structure ends our knowledge: treat as held (conservative)
+                for y in b.succ(x):
+                    todo.append(y)
+            bad = []
+            for c in b.calls():
+                if c.bb not in held or c is a:
+                    continue
+                t = prog.by_path.get(c.res) or prog.by_path.get(c.decl)
+                if t is not None and t.root in may_lock:
+                    bad.append("%s at %s" % (c.name, c.span))
+                if c is not a and c in acq and c.bb in held:
+                    bad.append("second acquisition at %s" % c.span)
+            n += 1
+            rep.ob(P, "%s:no-reacquire-while-held%s" % (b.root_short, tag), not bad,
+                   "%s holds a guard on self.pdi; while it is held no call reaches a function that locks self.pdi again (the lock is not re-entrant: such a call never returns) %s" % (b.root_short, bad), loc=a.span, how="path")
+    rep.floor(P.split(".")[0] + " image lock holders" + tag, n, 8)
+
+
 def locks(prog, rep, tag):
     P = "C20.lock"
     for fn in ("SubDeviceGroup::tx_rx", "SubDeviceGroup::tx_rx_sync_system_time", "SubDeviceGroup::tx_rx_dc"):
@@ -194,6 +264,7 @@ def locks(prog, rep, tag):
             dropped_early = [c for c in b.calls() if c.is_("mem::drop") and (op_place(c.args[0]) or {}).get("l") == gl]
             ok = not dropped_early
         rep.ob(P, "%s:own-lock-whole-cycle%s" % (fn, tag), ok, "%s takes self.pdi.write() before its first frame and holds the guard to the end" % fn, loc=b.span)
+    reentrancy(prog, rep, tag)
     g = prog.adt("SubDeviceGroup")
     f = {x["name"]: x["ty"] for x in g["variants"][0]["fields"]}
     ok = f.get("pdi", "").startswith("lock_api::RwLock<") and "&" not in f.get("pdi", "") and "Arc" not in f.get("pdi", "")
